@@ -66,7 +66,7 @@ func panicClass(p string) string {
 
 // ---------------------------------------------------------------- layouts
 
-var fillers = []string{" ", "\t", "\n", "\r\n", "/*c*/", "//c\n", "#c\n", " /* m\n * n */ ", "\n\n  ", ""}
+var fillers = []string{" ", "\t", "\n", "\r\n", "/*c*/", "//c\n", "#c\n", " /* m\n * n */ ", "\n\n  ", "", "/*é€*/", "// ü 中\n"}
 
 type deviation struct {
 	kind string // "gap" | "sep" | "quote" | "num"
